@@ -13,6 +13,7 @@
 
 #include "cctz/time_zone.h"
 #include "oracle.h"
+#include "tsan_timedlock.h"
 #include "sup.h"
 #include "time_zone_fixed.h"
 #include "zsrc.h"
@@ -844,6 +845,52 @@ int main(int argc, char** argv) {
       for (auto& b : bad)
         if (!b.empty()) ctx.viol("C13", "result-differs-from-single-threaded:hint-hammer", "round=" + std::to_string(c) + " k=" + std::to_string(k) + " zone=" + zb.name + " " + b);
       if (c == 0) ctx.sample("C13", "hint hammer round 0: " + std::to_string(k) + " threads x " + std::to_string(iters) + " lookup(t)+lookup(cs) on one shared " + zb.name + ", each thread in its own stretch of the table");
+    });
+  }
+  if (mode == "slow") {
+    // A zone source that takes seconds (a slow disk, a network file system): the other loaders wait for it, however
+    // long it takes; they neither enter the source meanwhile nor give up. Real time is the input here.
+    long hold_ms = a.getl("hold-ms", 6000);
+    return sup::supervise(2, opt, [&](long c, sup::Ctx& ctx) {
+      ctx.set_case("class=slow op=slow-zone-source hold=%ldms %s", hold_ms, c == 0 ? "other-name" : "same-name");
+      std::string pre = "V/C/slow/" + std::to_string(c) + "/";
+      zsrc::put(pre + "slow", g_z[0].bytes);
+      zsrc::put(pre + "other", g_z[1 % g_z.size()].bytes);
+      zsrc::st().gate = [hold_ms](const std::string& n) {
+        if (n.size() >= 5 && n.compare(n.size() - 5, 5, "/slow") == 0) std::this_thread::sleep_for(std::chrono::milliseconds(hold_ms));
+      };
+      zsrc::st().frozen.store(true);
+      zsrc::st().logging.store(true);
+      cctz::time_zone za = cctz::fixed_time_zone(cctz::seconds(7)), zb = za;
+      bool oka = false, okb = false;
+      std::string nb = c == 0 ? pre + "other" : pre + "slow";
+      std::thread ta([&]() {
+        zsrc::thread_log_init();
+        oka = traced_load(pre + "slow", &za);
+      });
+      std::this_thread::sleep_for(std::chrono::milliseconds(300));
+      std::thread tb([&]() {
+        zsrc::thread_log_init();
+        okb = traced_load(nb, &zb);
+      });
+      ta.join();
+      tb.join();
+      zsrc::st().logging.store(false);
+      zsrc::st().frozen.store(false);
+      ctx.stat("C13.evaluations", 2);
+      ctx.stat("C20.evaluations", 2);
+      ctx.stat("C13.slow_source_rounds");
+      ctx.stat("C20.slow_source_rounds");
+      ctx.stat("C13.distinct_nontrivial");
+      ctx.stat("C20.distinct_nontrivial");
+      if (!oka || !okb || za.name() != pre + "slow" || zb.name() != nb)
+        ctx.viol("C13", "load-result-differs:slow-source", "a loader waiting for a slow zone source got ok=" + std::to_string(okb) + " name=" + zb.name() + " (the slow load: ok=" + std::to_string(oka) + ")");
+      if (c == 1 && !(za == zb)) ctx.viol("C13", "threads-hold-unequal-zones-for-one-name:slow-source", nb);
+      auto log = zsrc::collect_log();
+      std::map<std::string, int> calls;
+      LogVerdict lv = check_factory_log(log, &calls);
+      ctx.stat("C20.factory_invocations", static_cast<uint64_t>(lv.enters));
+      for (auto& v : lv.viol) ctx.viol("C20", v.first + ":slow-source", v.second);
     });
   }
   if (mode == "exit") {
